@@ -29,6 +29,8 @@ package parentpb
 //@   ensures [last-page] err == nil && nextIndex + pageSize > len(all) ==> resp.NextPageToken == ""
 //@   replay ParentListChildren(request.PageSize)
 //@   loop 0 (k):
+//@     // the page is cut from the name-sorted listing (checked before the read mask is applied to the page's elements)
+//@     assert [start] distinctNames(all) ==> (lastKey == "" ==> nextIndex == 0) && (forall i int :: 0 <= i && i < nextIndex ==> all[i].Name <= lastKey) && (forall i int :: nextIndex <= i && i < len(all) ==> lastKey == "" || all[i].Name > lastKey)
 //@     invariant 0 <= k && k <= upperBound - nextIndex
 //@     invariant result.Children == pre(result.Children) && result.TotalSize == pre(result.TotalSize) && result.NextPageToken == pre(result.NextPageToken)
 //@     invariant forall j int :: k <= j && j < upperBound - nextIndex ==> result.Children[j] != nil
